@@ -200,6 +200,12 @@ pub open spec fn opt_skip(o: Option<&Opts>) -> bool { match o { Some(x) => x.ski
 		res is Ok ==> (res->Ok_0.hash is Some) == opt_hash(opts) /*[C11.hash_iff_requested]*/,
 //@before let hash
 	let ghost r0 = r.rest();
+//@afterblock if#1
+	proof {
+		// C10: with skip-frames the reader resumes exactly one Game End event before the declared end of the raw element, with no frame rows
+		assert(opt_skip(opts) ==> raw_len > 0 && state.bytes_read == raw_len - (1 + payload_size(&state, 0x39u8)) && state.game.frames.id@.len() == 0) /*[C10.skip_lands_on_game_end]*/;
+		assert(opt_skip(opts) ==> state.game.end is None && state.game.metadata is None) /*[C10.nothing_parsed_while_skipping]*/;
+	}
 //@loop 1
 		invariant
 			r.inv(), !r.hit_eof(), r.stable() == hash, hash == opt_hash(opts),
